@@ -54,6 +54,20 @@ func genRegexBody(g *Gen, depth int) string {
 		case 4:
 			return Pick(g, []string{`\d`, `\w`, `\s`, `\D`, `\W`})
 		case 5:
+			if g.Chance(1, 3) {
+				// classes holding regex metacharacters as literals, in every position
+				ms := []string{"*", "+", "{0", "(", ")", "{", "}", "$", "^x", "|"}
+				body := Pick(g, []string{"abcdef", "a-z", "0-9", "xy", ""})
+				switch g.Intn(3) {
+				case 0:
+					body = Pick(g, ms) + body
+				case 1:
+					body = body + Pick(g, ms)
+				default:
+					body = "a" + Pick(g, ms) + body
+				}
+				return "[" + body + "]"
+			}
 			return Pick(g, []string{`[a-z]`, `[0-9]`, `[^/]`, `[a-zA-Z0-9_-]`, `[.]`, `[)]`, `[\]x]`})
 		case 6:
 			return "."
